@@ -129,6 +129,11 @@ func createPipelineObjects[T any, CC any](
 		logger.Debug().Str("_id", pe.ID).Str("_type", pe.Type).Msg("Loading mechanism definition")
 
 		if len(pe.Condition) != 0 {
+			// a definition may come without a config
+			if pe.Config == nil {
+				pe.Config = make(config.MechanismConfig)
+			}
+
 			pe.Config["if"] = pe.Condition
 		}
 
